@@ -40,8 +40,18 @@ def axioms_for(terms):
     for name in ('cos', 'sin'):
         for t in apps.get(name, {}).values():
             args[t.arg(0).get_id()] = t.arg(0)
+    import math as _m
+    from fractions import Fraction as _F
+    s3 = z3.Real('sqrt3!const')
+    special = {_F(_m.pi / 3.): ((1, 2), +1), _F(2. * _m.pi / 3.): ((-1, 2), +1)}      # cos = +-1/2, sin = sqrt(3)/2
     for a in args.values():
         ax.append(cos(a) * cos(a) + sin(a) * sin(a) == 1)
+        if z3.is_rational_value(a):
+            fr = _F(a.numerator_as_long(), a.denominator_as_long())
+            if fr in special:
+                (cn, cd), _ = special[fr]
+                # the double nearest to pi/3 (2pi/3) is read as the exact angle (A3)
+                ax += [cos(a) == z3.RealVal(f'{cn}/{cd}'), sin(a) == s3 / 2, s3 > 0, s3 * s3 == 3]
     return ax
 
 
@@ -260,7 +270,149 @@ def _equalities(hyps):
     return out
 
 
-def ideal_check(hyps, lhs, rhs, timeout_s=20):
+def _collect_atoms(terms):
+    atoms = {}
+    seen = set()
+    stack = list(terms)
+    while stack:
+        t = stack.pop()
+        if t.get_id() in seen:
+            continue
+        seen.add(t.get_id())
+        if z3.is_app(t) and t.decl().kind() == z3.Z3_OP_UNINTERPRETED:
+            atoms.setdefault(t.sexpr(), len(atoms))
+            continue
+        stack.extend(t.children())
+    return atoms
+
+
+def _z3_to_ring(t, R, gens, atoms, cache):
+    key = t.get_id()
+    if key in cache:
+        return cache[key]
+    from sympy import QQ
+    if z3.is_rational_value(t):
+        r = R(QQ(t.numerator_as_long(), t.denominator_as_long()))
+    elif z3.is_int_value(t):
+        r = R(t.as_long())
+    else:
+        k = t.decl().kind()
+        ch = t.children()
+        if k == z3.Z3_OP_UNINTERPRETED:
+            r = gens[atoms[t.sexpr()]]
+        elif k == z3.Z3_OP_ADD:
+            r = R(0)
+            for c in ch:
+                r = r + _z3_to_ring(c, R, gens, atoms, cache)
+        elif k == z3.Z3_OP_MUL:
+            r = R(1)
+            for c in ch:
+                r = r * _z3_to_ring(c, R, gens, atoms, cache)
+        elif k == z3.Z3_OP_SUB:
+            r = _z3_to_ring(ch[0], R, gens, atoms, cache)
+            for c in ch[1:]:
+                r = r - _z3_to_ring(c, R, gens, atoms, cache)
+        elif k == z3.Z3_OP_UMINUS:
+            r = -_z3_to_ring(ch[0], R, gens, atoms, cache)
+        elif k == z3.Z3_OP_TO_REAL:
+            r = _z3_to_ring(ch[0], R, gens, atoms, cache)
+        elif k == z3.Z3_OP_POWER and (z3.is_int_value(ch[1]) or z3.is_rational_value(ch[1])):
+            n = ch[1].as_long() if z3.is_int_value(ch[1]) else ch[1].numerator_as_long()
+            if n < 0 or (z3.is_rational_value(ch[1]) and ch[1].denominator_as_long() != 1):
+                raise NotPolynomial('power')
+            r = _z3_to_ring(ch[0], R, gens, atoms, cache) ** n
+        elif k == z3.Z3_OP_DIV and (z3.is_rational_value(ch[1]) or z3.is_int_value(ch[1])):
+            d = ch[1]
+            num, den = (d.numerator_as_long(), d.denominator_as_long()) if z3.is_rational_value(d) else (d.as_long(), 1)
+            if num == 0:
+                raise NotPolynomial('division by zero')
+            r = _z3_to_ring(ch[0], R, gens, atoms, cache) * R(QQ(den, num))
+        else:
+            raise NotPolynomial(t.decl().name())
+    cache[key] = r
+    return r
+
+
+def _reduce_by(c, R, idx, k, lc, rest):
+    """Pseudo-reduce polynomial c by the relation  lc * g^k == rest  (g = generator idx, k in (1, 2))."""
+    by_deg = {}
+    for mon, coef in c.terms():
+        d = mon[idx]
+        m2 = list(mon)
+        m2[idx] = 0
+        by_deg.setdefault(d, []).append((tuple(m2), coef))
+    if not by_deg or max(by_deg) < k:
+        return c
+    dmax = max(by_deg)
+    g = R.gens[idx]
+    out = R(0)
+    powers_rest = {0: R(1)}
+    powers_lc = {0: R(1)}
+
+    def pw(table, base, n):
+        if n not in table:
+            table[n] = pw(table, base, n - 1) * base
+        return table[n]
+    top = dmax // k
+    for d, terms in by_deg.items():
+        part = R.from_terms(terms) if hasattr(R, 'from_terms') else sum((R({m: cf}) for m, cf in terms), R(0))
+        j, rem = divmod(d, k)
+        # g^d = (g^k)^j g^rem  ->  (rest/lc)^j g^rem ; multiply everything by lc^top
+        out = out + part * pw(powers_rest, rest, j) * pw(powers_lc, lc, top - j) * (g ** rem)
+    return out
+
+
+def triangular_check(defs, hyps, lhs, rhs):
+    """Cheap complete reduction for the triangular system of defining equations collected on a path
+    (q*y == x for quotients, s*s == e for square roots / absolute values; each symbol defined from earlier ones).
+    The goal lhs - rhs is pseudo-reduced by the relations, latest definition first (each relation has its leading
+    term in its own fresh symbol, so the set is a Groebner basis).  Sparse polynomial arithmetic over QQ
+    (sympy.polys.rings).  'unsat' = the identity holds wherever the definitions hold and the denominators (proved
+    non-zero by the side obligations) do not vanish; never 'sat'."""
+    import sympy as sp
+    goal_t = z3.simplify(lhs - rhs, som=False)
+    terms = [goal_t]
+    dd = []
+    for d in defs:
+        if d[0] == 'div':
+            dd.append(('div', d[1], z3.simplify(d[2], som=False), z3.simplify(d[3], som=False)))
+            terms += [d[1], dd[-1][2], dd[-1][3]]
+        elif d[0] in ('sqrt', 'abs'):
+            dd.append((d[0], d[1], z3.simplify(d[2], som=False)))
+            terms += [d[1], dd[-1][2]]
+    def _order(d):
+        name = d[1].decl().name()
+        try:
+            return int(name.rsplit('!', 1)[1])
+        except (IndexError, ValueError):
+            return 0
+    dd.sort(key=_order)          # definition order = order of the fresh-symbol counter
+    atoms = _collect_atoms(terms)
+    if not atoms:
+        return 'unknown', {'why': 'triangular: no symbols'}
+    names = [f'v{i}' for i in range(len(atoms))]
+    R, *gens = sp.ring(names, sp.QQ)
+    cache = {}
+    c = _z3_to_ring(goal_t, R, gens, atoms, cache)
+    if c == 0:
+        return 'unsat', {'why': 'triangular: expands to 0'}
+    rels = []
+    for d in dd:
+        idx = atoms[d[1].sexpr()]
+        if d[0] == 'div':
+            rels.append((idx, 1, _z3_to_ring(d[3], R, gens, atoms, cache), _z3_to_ring(d[2], R, gens, atoms, cache)))
+        else:
+            e = _z3_to_ring(d[2], R, gens, atoms, cache)
+            rels.append((idx, 2, R(1), e if d[0] == 'sqrt' else e * e))
+    # relations themselves may mention later-eliminated symbols only of *earlier* definitions: reduce latest first
+    for idx, k, lc, rest in reversed(rels):
+        c = _reduce_by(c, R, idx, k, lc, rest)
+        if c == 0:
+            return 'unsat', {'why': 'triangular: remainder 0', 'relations': len(rels)}
+    return 'unknown', {'why': 'triangular: non-zero remainder', 'terms': len(c.terms())}
+
+
+def ideal_check(hyps, lhs, rhs, timeout_s=20, defs=None):
     """Is lhs - rhs in the ideal generated by the polynomial equalities among hyps?
     Returns ('unsat', info) if the remainder is 0 (identity holds wherever the hypotheses hold),
     ('unknown', info) otherwise.  Never answers 'sat'."""
@@ -276,6 +428,14 @@ def ideal_check(hyps, lhs, rhs, timeout_s=20):
     old = signal.signal(signal.SIGALRM, _h)
     signal.alarm(int(timeout_s))
     try:
+        if defs:
+            try:
+                v, info = triangular_check(defs, hyps, lhs, rhs)
+            except NotPolynomial as e:
+                v, info = 'unknown', {'why': f'triangular: {e}'}
+            if v == 'unsat':
+                info['s'] = time.time() - t0
+                return v, info
         return _ideal_check(hyps, lhs, rhs, t0)
     except _TO:
         return 'unknown', {'why': f'ideal back end timed out after {timeout_s}s', 's': time.time() - t0}
